@@ -669,14 +669,16 @@ fn encode_genotype_str(genotype: &str) -> io::Result<Vec<i8>> {
     }
 
     fn encode(s: &str, phasing: &str) -> io::Result<i8> {
+        let is_phased = phasing == "|";
+
+        // A missing allele is allele -1 and carries the phasing like any other allele.
         if s == MISSING_ALLELE {
-            return Ok(0);
+            return Ok(if is_phased { 0x01 } else { 0x00 });
         }
 
         let j: i8 = s
             .parse()
             .map_err(|e| io::Error::new(io::ErrorKind::InvalidInput, e))?;
-        let is_phased = phasing == "|";
 
         let mut i = (j + 1) << 1;
 
@@ -709,7 +711,8 @@ fn encode_genotype(genotype: &dyn Genotype) -> io::Result<Vec<i8>> {
         let i = if let Some(position) = position {
             i8::try_from(position).map_err(|e| io::Error::new(io::ErrorKind::InvalidData, e))?
         } else {
-            return Ok(0);
+            // A missing allele is allele -1 and carries the phasing like any other allele.
+            return Ok(if phasing == Phasing::Phased { 0x01 } else { 0x00 });
         };
 
         let mut n = (i + 1) << 1;
